@@ -221,7 +221,28 @@ pub fn guarded<T>(f: impl FnOnce() -> Result<T, String>) -> Result<Result<T, Str
     }
 }
 
+/// In-process builds get a hook step budget too: code that stops making progress must surface as a
+/// reported panic of that one build, not as a monitor that never returns. (C16 decides hangs in
+/// isolated workers with its own budget; this one is only a safety net, set far above any workload.)
+pub const INPROCESS_STEP_BUDGET: u64 = 200_000_000;
+
+fn budget_exceeded(n: u64) {
+    // only once per build: lift the budget before unwinding
+    avra_lib::verif::reset_steps(u64::MAX, None);
+    panic!("verif step budget exceeded: no result after {} hook steps (hang)", n);
+}
+
+/// set by the isolated worker, which installs its own budget and verdict
+pub static BUDGET_MANAGED_BY_CALLER: AtomicBool = AtomicBool::new(false);
+
+fn arm_budget() {
+    if !BUDGET_MANAGED_BY_CALLER.load(Ordering::Relaxed) {
+        avra_lib::verif::reset_steps(INPROCESS_STEP_BUDGET, Some(budget_exceeded));
+    }
+}
+
 pub fn build_str(src: &str) -> Outcome {
+    arm_budget();
     match guarded(|| avra_lib::builder::build_str(src).map_err(|e| e.to_string())) {
         Ok(Ok(b)) => Outcome::Ok(b),
         Ok(Err(e)) => Outcome::Err(e),
@@ -231,6 +252,7 @@ pub fn build_str(src: &str) -> Outcome {
 
 pub fn build_file(path: &Path, dirs: &[PathBuf]) -> Outcome {
     let paths: BTreeSet<PathBuf> = dirs.iter().cloned().collect();
+    arm_budget();
     match guarded(|| {
         avra_lib::builder::build_file(path.to_path_buf(), paths).map_err(|e| e.to_string())
     }) {
